@@ -673,6 +673,12 @@ func (db *DB) Begin(opts ...*sql.TxOptions) *DB {
 		opt = opts[0]
 	}
 
+	if tx.Error != nil {
+		// the handle already carries an error: a transaction begun now would be reported as failed
+		// to the caller (Transaction returns without running the block) and never be finished
+		return tx
+	}
+
 	switch beginner := tx.Statement.ConnPool.(type) {
 	case TxBeginner:
 		tx.Statement.ConnPool, err = beginner.BeginTx(tx.Statement.Context, opt)
